@@ -57,6 +57,20 @@ CHECKS["C12"] = dict(
          "subject and enters as observed increments. Coverpoints have >= 1 bin, total weight > 0; percentages compared within 1e-4.",
     technique="Coq proof (invariant over operation sequences, Q arithmetic) + differential correspondence evaluated in Coq",
     ref="DESIGN.md §3 C12")
+CHECKS["C13"] = dict(
+    text="Theorems (Coq, closed) about a Gallina model of CoverageSaveVisitor (what is written for every covergroup type, instance, "
+         "coverpoint, cross and bin, with get_cg_instname's name de-duplication) and of the percentage arithmetic PyUCIS applies to "
+         "the saved database: the saved tree contains every type/instance/item/bin (regular, ignore, illegal) with the names and "
+         "counts in memory and nothing else; instance names are distinct; item percentages equal the in-memory figures and "
+         "covergroup percentages do when crosses keep weight 1 (refuted otherwise: known finding). Tie: after random "
+         "instance/sampling histories the in-memory state (model getters), get_coverage_report_model(), the parsed text report and "
+         "the XML written by write_coverage_db and read back are compared inside Coq with the model's save and with the "
+         "specification (report == memory, percentages == get_coverage()/get_inst_coverage(), state unchanged by reporting).",
+    note="PARTIAL: PyUCIS (MemFactory database, CoverageReportBuilder, text formatter, XML writer/reader) is modelled, not verified; "
+         "the XML does not carry at_least, so percentages after read-back are not compared (names and counts are). Known finding "
+         "report.cross_weight (root cause in PyUCIS, outside /repo). Trusted: Coq kernel, harness, CPython.",
+    technique="Coq proof over hand-written model of the save visitor + differential correspondence (memory vs report/text/XML) in Coq",
+    ref="DESIGN.md §3 C13")
 NOT_YET = {}
 
 def main():
